@@ -67,10 +67,23 @@ def contract_outcome(c: FunctionContract, factory_ref: str) -> Outcome:
     return Outcome.ok("pyvc/z3", count=n, **extra)
 
 
-def contract_ob(oid: str, title: str, c_factory: Callable[[], FunctionContract], factory_ref: str, thorough_only: bool = False, timeout: float = 1800.0) -> Ob:
+def contract_ob(oid: str, title: str, c_factory: Callable[[], FunctionContract], factory_ref: str, thorough_only: bool = False, timeout: float = 1800.0, probe: Callable[[], tuple] | None = None, probe_ref: str | None = None) -> Ob:
+    """`probe` (optional): concrete inputs on the real function, run ONLY when the contract comes back undecided (source outside
+    the engine's subset, solver unknown). It fails => refuted with that input (confirmed on the real code); it passes => the
+    obligation stays undecided. A discharged or refuted contract never consults it."""
     c0 = c_factory()
 
     def fn(ctx: Ctx, c_factory=c_factory, factory_ref=factory_ref) -> Outcome:
-        return contract_outcome(c_factory(), factory_ref)
+        out = contract_outcome(c_factory(), factory_ref)
+        if probe is not None and out.status == "undecided":
+            try:
+                failed, text = probe()
+            except Exception as e:  # noqa: BLE001
+                out.detail = f"{out.detail}; probe could not run: {type(e).__name__}: {e}"
+                return out
+            if failed:
+                return Outcome.refuted("pyvc+probe", [Witness(what=f"contract undecided ({out.detail[:160]}); concrete probe on the real function: {text[:600]}", input=text[:300], key=oid, replay={"runner": probe_ref, "args": {}} if probe_ref else None, confirmed=True)], count=max(out.count, 1))
+            out.detail = f"{out.detail}; probe: {text[:160]}"
+        return out
 
     return Ob(oid, c0.tier, title, [c0.key], fn, thorough_only=thorough_only, timeout=timeout)
